@@ -17,7 +17,7 @@
 (*           "write" = validate(value, previous) on a python value               *)
 (*           "call"  = __call__ : type conversion, numeric limits not demanded   *)
 (* Val(dt, c, prev, path) is the SET of outcomes the property allows.            *)
-EXTENDS Integers, Sequences, FiniteSets, TLC
+EXTENDS Integers, Sequences, FiniteSets, TLC, SequencesExt
 
 NoLim == 1073741824       \* 2^30 : "no limit" (+-float_info.max / UNLIMITED)
 HUGE  == 67108864         \* 2^26 ticks
@@ -39,7 +39,7 @@ N(t) == [j |-> "num", t |-> t, ix |-> FALSE, w |-> (t % U = 0)]
 NX(t, w) == [j |-> "num", t |-> t, ix |-> TRUE, w |-> w]
 Sp(s) == [j |-> "special", s |-> s]        \* "nan" "pinf" "ninf"
 FMax(s) == [j |-> "fmax", s |-> s]         \* +-float_info.max, s in {1,-1}
-\* strings: cls in {"ascii","utf8","nul"}, len = characters, blen = bytes when the
+\* strings: cls in {"ascii","esc","utf8","nul"} (esc = ASCII with quote/backslash/newline), len = characters, blen = bytes when the
 \* text is strictly valid base64 else -1, name = the literal text or "" (synthesised)
 S(cls, len, blen, name) == [j |-> "str", cls |-> cls, len |-> len, blen |-> blen, name |-> name]
 Bytes(n) == [j |-> "bytes", len |-> n]
@@ -194,7 +194,7 @@ VEnum(dt, c, path) ==
 
 (* string *)
 StrLenOK(dt, c) == dt.minc <= c.len /\ (dt.maxc = NoLim \/ c.len <= dt.maxc)
-StrClsOK(dt, c) == c.cls = "ascii" \/ (c.cls = "utf8" /\ dt.utf8)
+StrClsOK(dt, c) == c.cls \in {"ascii", "esc"} \/ (c.cls = "utf8" /\ dt.utf8)
 VString(dt, c, path) ==
     IF c.j # "str" THEN {WT}
     ELSE IF StrClsOK(dt, c) THEN (IF StrLenOK(dt, c) THEN {Ok(c)} ELSE {RE})
@@ -345,6 +345,7 @@ Plain(n) == S("ascii", n, IF n % 4 = 0 THEN 3 * (n \div 4) ELSE -1, "")
 B64(nb) == S("ascii", 4 * ((nb + 2) \div 3), nb, "")
 Utf(n) == S("utf8", n, -1, "")
 Nul(n) == S("nul", n, -1, "")
+Esc(n) == S("esc", n, -1, "")
 NatOnly(ns) == {n \in ns : n >= 0}
 
 (* offered to every type at every position: every JSON kind, python-only kinds, extremes *)
@@ -469,6 +470,103 @@ PathsFor(c, p) == IF p # None THEN (IF HasInternal(c) THEN {"write"} ELSE {"wire
 Cases(dt) == UNION {{[c |-> c, p |-> p, path |-> path] : path \in PathsFor(c, p)} :
                       <<c, p>> \in UNION {{<<x, q>> : q \in Prevs(dt, x)} : x \in Cands(dt)}}
 
+(* ------------------------------------------------------ C02: the wire encoding *)
+WireKind(d) == CASE d.k = "double" -> "num"
+                 [] d.k \in {"int", "scaled", "enum"} -> "int"
+                 [] d.k = "bool" -> "bool"
+                 [] d.k = "string" -> "str"
+                 [] d.k = "blob" -> "b64str"
+                 [] d.k \in {"array", "tuple"} -> "list"
+                 [] d.k = "struct" -> "obj"
+
+RECURSIVE Export(_, _), KindOK(_, _), VS(_), EqModFloat(_, _, _)
+(* abstract JSON value exported for the internal value v *)
+Export(d, v) ==
+    CASE d.k \in {"double", "int", "bool", "string"} -> v
+      [] d.k = "scaled" -> I(v.t \div d.scale)
+      [] d.k = "enum" -> I(v.n)
+      [] d.k = "blob" -> B64(v.len)
+      [] d.k = "array" -> L([i \in 1 .. Len(v.xs) |-> Export(d.el, v.xs[i])])
+      [] d.k = "tuple" -> L([i \in 1 .. Len(v.xs) |-> Export(d.els[i], v.xs[i])])
+      [] d.k = "struct" -> O([i \in 1 .. Len(v.kv) |->
+                               [k |-> v.kv[i].k, v |-> Export(TypeOf(d, v.kv[i].k), v.kv[i].v)]])
+
+(* the JSON value j has the kind SECoP prescribes for d, at every position *)
+KindOK(d, j) ==
+    CASE WireKind(d) = "num" -> j.j = "num"
+      [] WireKind(d) = "int" -> j.j = "int"
+      [] WireKind(d) = "bool" -> j.j = "bool"
+      [] WireKind(d) = "str" -> j.j = "str"
+      [] WireKind(d) = "b64str" -> j.j = "str" /\ j.blen >= 0
+      [] d.k = "array" -> j.j = "list" /\ \A i \in 1 .. Len(j.xs) : KindOK(d.el, j.xs[i])
+      [] d.k = "tuple" -> j.j = "list" /\ Len(j.xs) = Len(d.els) /\ \A i \in 1 .. Len(j.xs) : KindOK(d.els[i], j.xs[i])
+      [] d.k = "struct" -> /\ j.j = "obj" /\ Keys(j) \subseteq Names(d)
+                           /\ \A i \in 1 .. Len(j.kv) : KindOK(TypeOf(d, j.kv[i].k), j.kv[i].v)
+
+(* a finite set of valid internal values: limits, far grid points, empty and maximal containers, *)
+(* every enum member, optional members absent / present                                        *)
+Diag(seqs, s) == [i \in 1 .. Len(seqs) |-> seqs[i][((s - 1) % Len(seqs[i])) + 1]]
+MaxLen(seqs) == IF seqs = <<>> THEN 0 ELSE CHOOSE m \in {Len(seqs[i]) : i \in 1 .. Len(seqs)} :
+                                              \A i \in 1 .. Len(seqs) : Len(seqs[i]) <= m
+VS(d) ==
+    CASE d.k = "double" ->
+           LET lo == IF d.min = -NoLim THEN (IF d.max = NoLim THEN -160 ELSE d.max - 320) ELSE d.min
+               hi == IF d.max = NoLim THEN lo + 320 ELSE d.max
+               ts == {t \in {lo, lo + 1, hi - 1, hi, 0, 24, (lo + hi) \div 2} : lo <= t /\ t <= hi} IN
+           {N(t) : t \in ts} \cup {NX(t, FALSE) : t \in {x \in {lo, hi - 1} : lo <= x /\ x + 1 <= hi}}
+           \cup (IF d.max = NoLim THEN {NX(HUGE, TRUE)} ELSE {}) \cup (IF d.min = -NoLim THEN {NX(-HUGE, TRUE)} ELSE {})
+      [] d.k = "int" -> {I(n) : n \in {m \in {d.min, d.min + 1, 0, d.max - 1, d.max} : d.min <= m /\ m <= d.max}}
+      [] d.k = "scaled" -> {N(t) : t \in {m \in {d.min, d.min + d.scale, 0, d.max - d.scale, d.max} : d.min <= m /\ m <= d.max}}
+      [] d.k = "bool" -> {B(TRUE), B(FALSE)}
+      [] d.k = "enum" -> {Mem(m.v, m.n) : m \in Rng(d.mem)}
+      [] d.k = "string" ->
+           LET lens == {n \in {d.minc, d.minc + 1, IF d.maxc = NoLim THEN d.minc + 9 ELSE d.maxc} :
+                          d.minc <= n /\ (d.maxc = NoLim \/ n <= d.maxc)} IN
+           {Plain(n) : n \in lens} \cup {Esc(n) : n \in lens \ {0}}
+           \cup (IF d.utf8 THEN {Utf(n) : n \in lens \ {0}} ELSE {})
+      [] d.k = "blob" -> {Bytes(n) : n \in {d.minb, d.maxb, (d.minb + d.maxb) \div 2}}
+      [] d.k = "array" ->
+           LET es == SetToSeq(VS(d.el))
+               K == Len(es) IN
+           UNION {{L([i \in 1 .. n |-> es[((i + s - 2) % K) + 1]]) : s \in 1 .. (IF n = 0 THEN 1 ELSE K)} :
+                    n \in {d.minlen, d.maxlen}}
+      [] d.k = "tuple" ->
+           LET seqs == [i \in 1 .. Len(d.els) |-> SetToSeq(VS(d.els[i]))] IN
+           {L(Diag(seqs, s)) : s \in 1 .. MaxLen(seqs)}
+      [] d.k = "struct" ->
+           LET seqs == [i \in 1 .. Len(d.mem) |-> SetToSeq(VS(d.mem[i].t))]
+               full(s) == [i \in 1 .. Len(d.mem) |-> [k |-> d.mem[i].n, v |-> Diag(seqs, s)[i]]]
+               opt == Rng(d.opt) IN
+           UNION {{O(full(s)), O(SelectSeq(full(s), LAMBDA e : e.k \notin opt))}
+                  \cup {O(SelectSeq(full(s), LAMBDA e : e.k # o)) : o \in opt} : s \in 1 .. MaxLen(seqs)}
+
+(* equal at every leaf that is not a float (double, scaled) *)
+EqModFloat(d, a, b) ==
+    CASE d.k \in {"double", "scaled"} -> TRUE
+      [] d.k \in {"array", "tuple"} ->
+           /\ b.j = "list" /\ Len(b.xs) = Len(a.xs)
+           /\ \A i \in 1 .. Len(a.xs) : EqModFloat(IF d.k = "array" THEN d.el ELSE d.els[i], a.xs[i], b.xs[i])
+      [] d.k = "struct" ->
+           /\ b.j = "obj" /\ Len(b.kv) = Len(a.kv)
+           /\ \A i \in 1 .. Len(a.kv) : b.kv[i].k = a.kv[i].k /\ EqModFloat(TypeOf(d, a.kv[i].k), a.kv[i].v, b.kv[i].v)
+      [] OTHER -> a = b
+
+RECURSIVE HasFloat(_)
+HasFloat(d) == CASE d.k \in {"double", "scaled"} -> TRUE
+                 [] d.k = "array" -> HasFloat(d.el)
+                 [] d.k = "tuple" -> \E i \in 1 .. Len(d.els) : HasFloat(d.els[i])
+                 [] d.k = "struct" -> \E i \in 1 .. Len(d.mem) : HasFloat(d.mem[i].t)
+                 [] OTHER -> FALSE
+
+(* law on the model: every value of the value set is valid, is exported with the prescribed kinds, *)
+(* and the exported form imports to exactly that value again                                       *)
+RoundTripLaw(d) == \A v \in VS(d) :
+    /\ InSet(d, v, TRUE)
+    /\ KindOK(d, Export(d, v))
+    /\ Val(d, Export(d, v), None, "wire") = {Ok(v)}
+    /\ Val(d, v, None, "write") = {Ok(v)}
+    /\ EqModFloat(d, v, v)
+
 (* --------------------------------------------------------------- type catalogue *)
 Dbl(lo, hi, a, r) == [k |-> "double", min |-> lo, max |-> hi, abs |-> a, rel |-> r]
 IntT(lo, hi) == [k |-> "int", min |-> lo, max |-> hi]
@@ -555,5 +653,6 @@ Sound == SoundR(dt, CaseRecs(dt))
 Idempotent == IdempotentR(dt, CaseRecs(dt))
 PrevFree == PrevFreeR(dt, CaseRecs(dt))
 NonVacuous == NonVacuousR(dt, CaseRecs(dt))
+RoundTrip == RoundTripLaw(dt) /\ VS(dt) # {}
 AllLaws(d, R) == TotalR(d, R) /\ SoundR(d, R) /\ IdempotentR(d, R) /\ PrevFreeR(d, R) /\ NonVacuousR(d, R)
 =============================================================================
